@@ -1,0 +1,35 @@
+//go:build verif
+
+package event
+
+import (
+	"sync"
+
+	"github.com/AliceO2Group/Control/common/monitoring"
+	"github.com/segmentio/kafka-go"
+)
+
+// VerifNewWriter builds a KafkaWriter exactly like NewWriterWithTopic, but with an
+// injected write function (the broker boundary) and a configurable channel capacity.
+func VerifNewWriter(topic string, chanCap int, writeFn func([]kafka.Message)) *KafkaWriter {
+	writer := &KafkaWriter{
+		Writer: &kafka.Writer{
+			Addr:     kafka.TCP("127.0.0.1:1"),
+			Topic:    topic,
+			Balancer: &kafka.Hash{},
+		},
+		toBatchMessagesChan: make(chan kafka.Message, chanCap),
+		messageBuffer:       NewFifoBuffer[kafka.Message](),
+		runningWorkers:      sync.WaitGroup{},
+		batchingLoopDoneCh:  make(chan struct{}, 1),
+	}
+	writer.writeFunction = func(messages []kafka.Message, _ *monitoring.Metric) {
+		writeFn(messages)
+	}
+	go writer.writingLoop()
+	go writer.batchingLoop()
+	return writer
+}
+
+// VerifBufferLength exposes the length of the internal FIFO buffer.
+func (w *KafkaWriter) VerifBufferLength() int { return w.messageBuffer.Length() }
